@@ -96,7 +96,7 @@ def all_candidates():
 def core_candidates():
     out = []
     single = [(a, o) for a in ("hash", "eq", "ord") for o in OPTS[a]]
-    for sh in ["s_named3", "s_tuple2", "s_gen", "e_mixed", "e_two", "e_single", "e_gen", "s_unit", "e_units3"]:
+    for sh in ["s_named3", "s_tuple2", "s_gen", "e_mixed", "e_two", "e_single", "e_gen", "s_unit", "e_units3", "e_data_unit"]:
         out.append((sh, [], ["Hash"], "attr"))
         out.append((sh, [], SUBSETS[3], "derive"))
     for sh, idx in (("s_named3", 1), ("e_mixed", 2), ("s_named3", 2), ("s_tuple2", 0)):
